@@ -508,6 +508,7 @@ type gwExchange struct {
 	resp    gateway.Object // as the accepter answers (response part filled)
 	reqEnc  []byte
 	respEnc []byte
+	mustFit bool // the request is within the protocol's own limits whatever the receiver's length limit says
 }
 
 func gwReqBytes(o gateway.Object) []byte {
@@ -566,7 +567,7 @@ func buildGateway(t *sim.Tape) []gwExchange {
 		if cs.V2TransactionWeight(txn) == cs.MaxBlockWeight() {
 			blk := types.Block{Timestamp: time.Unix(1e9, 0), MinerPayouts: []types.SiacoinOutput{{Value: types.Siacoins(1)}}, V2: &types.V2BlockData{Height: 5, Transactions: []types.V2Transaction{txn}}}
 			req := &gateway.RPCRelayV2BlockOutline{Block: gateway.OutlineBlock(blk, nil, nil)}
-			ex := gwExchange{name: "RPCRelayV2BlockOutline(block of maximum weight)", obj: req, resp: new(gateway.RPCRelayV2BlockOutline)}
+			ex := gwExchange{name: "RPCRelayV2BlockOutline(block of maximum weight)", obj: req, resp: new(gateway.RPCRelayV2BlockOutline), mustFit: true}
 			if guardPanic(func() { ex.reqEnc, ex.respEnc = gwReqBytes(req), gwRespBytes(ex.resp) }) == "" {
 				return []gwExchange{ex}
 			}
@@ -778,7 +779,7 @@ func runGateway(s *Session, exs []gwExchange, mismatch string, addrLen [2]int) {
 				return
 			}
 			if err := st.ReadRequest(got); err != nil {
-				if !s.anyFault() && len(ex.reqEnc) <= gateway.VerifMaxRequestLen(ex.obj) {
+				if !s.anyFault() && (ex.mustFit || len(ex.reqEnc) <= gateway.VerifMaxRequestLen(ex.obj)) {
 					e.violate("C19", "gateway-valid-message-rejected", fmt.Sprintf("exchange %d: %s request (%d bytes, limit %d) could not be read: %v", i, ex.name, len(ex.reqEnc), gateway.VerifMaxRequestLen(ex.obj), err))
 				}
 				e.logf("ex %d read request failed", i)
